@@ -13,6 +13,11 @@ CHECKS = {
    note="Trusted: Coq kernel, extraction, OCaml driver, harness; per-pattern scanners replace Python's re (validated exhaustively per step, bounded); alphabet of fidelity 0..255+U+2028+U+3000; monotonicity proved only under MonoGuard (NORMALIZE_WHITESPACE/IGNORE_WHITESPACE with ELLIPSIS on is outside the proved part).",
    technique="Coq proof (relation equivalence, monotonicity lemmas, vm_compute refutation witnesses) + step-level and whole-relation differential correspondence",
    design="5/C05"),
+ 'C13': dict(
+   text="Coq theorems over the model of DoctestParser (_label_docsrc_lines with _complete_source, the three grouping passes): C13_label_partition (exactly one labelled line per docstring line, in order, identical up to the inserted triple-quote display prefix, for EVERY tokenizer behaviour incl. raising ones, from any labeller state) and C13_group_partition (+ per-pass lemmas: nothing lost, duplicated or reordered by grouping). Tie to the code: parse (labels, groups, parts, offsets, modes, directives, failure phase) compared with the extracted model on every docstring of <=3 lines over a 22-symbol line alphabet plus 40000 seeded 4-9 line docstrings and 4000 block-built docstrings; model-independent partition/offset/intended-label predicates are evaluated on the implementation. Two genuine mislabelling defects found that way are recorded as known findings F8a/F8b (adjacent examples of different indentation).",
+   note="Trusted: Coq kernel, extraction, driver, harness; tokenizer/ast are oracles answered by CPython (pristine copy of the vendored 3.11 tokenizer; ast.parse); Directive.extract answers taken from xdoctest in this check; partition of parts inside a chunk (_package_chunk slicing) and the declarative label spec are checked on the implementation by the harness predicates, not yet by a theorem.",
+   technique="Coq proof (induction over lines / groups, for all oracles) + extracted-model/implementation differential correspondence + intended-label search",
+   design="5/C13"),
 }
 
 NOT_APPLICABLE = {}
